@@ -113,6 +113,9 @@ func VerifC04_Ics20Allowance() {
 				}
 			}
 		}
+		if g, ok := ics.grants[icsKey(icsContract.Bytes(), icsOrigin.Bytes())]; ok {
+			zz.Assert(g.exp != nil && g.exp.Equal(exp), "a live grant keeps its expiry through every allowance change and spend")
+		}
 		// the stored grant equals the model after every step, for both channels
 		live, st := icsLimits()
 		zz.Assert(live == grantLive, "grant existence matches the running-allowance model")
